@@ -325,6 +325,7 @@ class Session:
         self.hold_depth = {}
         self.double_runs = []
         self.record_inputs_at_start = False
+        self.patches = []  # (object, attribute, replacement) applied for the time of run_build
 
     # -- logging
 
@@ -703,6 +704,10 @@ async def run_build(config_kwargs=None, *, choices=(), default_settle=2, observe
 
     executor_mod.launch_command = session.launch
     director._wire_director = wire
+    applied = []
+    for obj, attr, new in session.patches:
+        applied.append((obj, attr, getattr(obj, attr)))
+        setattr(obj, attr, new)
     pump_task = None
     try:
         with cls.open(GRAPH_DB) as db:
@@ -770,6 +775,8 @@ async def run_build(config_kwargs=None, *, choices=(), default_settle=2, observe
     finally:
         executor_mod.launch_command = orig_launch
         director._wire_director = orig_wire
+        for obj, attr, old in reversed(applied):
+            setattr(obj, attr, old)
         for name, value in saved_env.items():
             if value is None:
                 os.environ.pop(name, None)
